@@ -4,10 +4,12 @@
   kinds: data extdata window eof chanreq globreq reply globreq-reply chanopen close chanreq-reply
   and `lock <underLock 0/1> <userType> <inbox: h1|h0|pk|kr|pn …> / <schedule: u|t …>` (Channel.lock model)
        → <finished 0/1> <stuck 0/1: neither thread can move> <wire csv>
+  and `gate <recheck 0/1> <n user messages> <schedule: u|k …>` (send gate at step granularity) → <wire csv>
   reply of run: <dead 0/1> <connection-layer types written inside the kex window, csv|-> <wire csv|-> <parked csv|->
 -/
 import PV.Model.RekeyFlight
 import PV.Model.RekeyLock
+import PV.Model.SendGate
 import PV.Base.DriverIO
 open PV PV.RekeyFlight
 
@@ -45,8 +47,17 @@ def lockLine (ul ut : String) (rest : List String) : String :=
     s!"{if fin then 1 else 0} {if stuck then 1 else 0} {csv s.wire}"
   | _, _, _, _ => "bad-op"
 
+def parseGTid : String → Option SendGate.Tid
+  | "u" => some .user | "k" => some .kex | _ => none
+
+def gateLine (rc n : String) (sched : List String) : String :=
+  match rc.toNat?, n.toNat?, sched.mapM parseGTid with
+  | some rc, some n, some sched => csv (SendGate.run (SendGate.init (rc == 1) n) sched).wire
+  | _, _, _ => "bad-op"
+
 def stepLine (line : String) : String :=
   match words line with
+  | "gate" :: rc :: n :: sched => gateLine rc n sched
   | "lock" :: ul :: ut :: rest => lockLine ul ut rest
   | "run" :: evs =>
     match evs.mapM parseEv with
